@@ -359,6 +359,16 @@ theorem readClause_sound (sp : Spec) (v : Ver) (w : Bool) (h : readClause sp = s
             · exact h1
         · cases h
 
+/- Full statement, of which `contains_eq_spec_strings` is the part proved (the missing half is a parser lemma:
+   whatever `Specifier.__init__` stores reads as a clause — prefix-stability of `V.scanCore` on the text consumed by
+   `S.parseSpec`; it is decidable per clause and measured by the `spec.clause` correspondence):
+
+     theorem contains_eq_spec_full (s cs : Str) (sp : Spec) (c : Ver) (override : Option Bool)
+         (hp : parseSpec s = some sp) (hc : scan cs = some c) :
+         ∃ v w, readClause sp = some (v, w) ∧
+           sp.contains override c (some true) = .ok (admits sp.op v w sp.ver c)
+-/
+
 /-- **C03, from the strings.**  `Specifier(s).contains(cs, prereleases=True)` for a clause string `s` that
 `Specifier` accepts and whose stored text reads as a clause (`readClause`; measured on every generated clause by
 the `spec.clause` correspondence), and any candidate string `cs` that `Version` accepts. -/
